@@ -1,1 +1,73 @@
-From Morph Require Import Base.UStr.
+(* C13 — RDF-star statements quote exactly the triples their quoted maps generate.  Statements only.
+   Proved for a quoted triples map in subject position over the same rows (no join condition), one level deep, whose own
+   term maps are constants, references and templates (names say _partial); quoted objects, joins and deeper nestings are
+   decided by the correspondence part of the check against the Spec (which is recursive in the nesting depth). *)
+From Coq Require Import String.
+From Morph Require Import Base.UStr Gen.Tables Model.Terms Model.Data Model.Engine Model.Mapping Model.Spec
+     Proofs.TemplateP Proofs.TermP Proofs.RowwiseP Proofs.RowSpecP Proofs.RuleSpecP Proofs.QuotedP Proofs.NormaliseP.
+Local Open Scope N_scope.
+
+(* the frame-wise stages of _materialize_rml_rule (quoted map, quoting, the rule's own terms, the triple string) are one
+   function of the row: any pipeline of row-wise stages over any frame *)
+Theorem frame_pipeline_is_rowwise : forall fs d, okeq (pipe fs d) (rflat_rows (fun r => pipe fs [r]) d).
+Proof. exact pipe_fuse. Qed.
+Print Assumptions frame_pipeline_is_rowwise.
+
+(* one row: the statement is  << s p o >> p' o' [g]  where s p o is exactly the triple the generation rules give the
+   quoted map for this row, and there is no statement iff the quoted triple or one of the rule's own terms is missing *)
+Theorem quoted_subject_embeds_the_quoted_triple_partial : forall cfg fe scfg, cfg_agree cfg scfg -> c_nquads cfg = s_nquads scfg ->
+  forall rl q, r_sk rl = KQuoted -> rule_ok false q ->
+    pos_ok (r_pk rl) (r_pv rl) TIri -> pos_ok (r_ok rl) (r_ov rl) (r_ott rl) -> (r_ld rl <> LDNone -> pos_ok (r_ldk rl) (r_ldv rl) TNone) ->
+    graph_ok (c_nquads cfg) rl ->
+    (forall n, In n (quoted_names rl q) -> ueqb n (keep_subject_col 0) = false) -> names_free (quoted_names rl q) ->
+  forall r sr, row_agree scfg sr [] r (quoted_names rl q) ->
+    match (rdo fs <- pipe (quoted_stages cfg fe rl q) [r]; extract_triples fs) with
+    | Ok ls => exists line, spec_quoted_line scfg rl q sr = Some line /\ ls = [line]
+    | Err _ => spec_quoted_line scfg rl q sr = None
+    end.
+Proof. exact quoted_row_is_spec. Qed.
+Print Assumptions quoted_subject_embeds_the_quoted_triple_partial.
+
+(* the whole rule over the frame it reads *)
+Theorem quoted_rule_statements_partial : forall cfg fe rules get_data scfg, cfg_agree cfg scfg -> c_nquads cfg = s_nquads scfg ->
+  forall rl q, r_sk rl = KQuoted -> r_sjoin rl = [] -> mkind_eqb (r_ok rl) KQuoted = false ->
+    find_rule rules (r_sv rl) = Some q -> plain_rule q = true -> rule_ok false q ->
+    pos_ok (r_pk rl) (r_pv rl) TIri -> pos_ok (r_ok rl) (r_ov rl) (r_ott rl) -> (r_ld rl <> LDNone -> pos_ok (r_ldk rl) (r_ldv rl) TNone) ->
+    graph_ok (c_nquads cfg) rl ->
+    (forall n, In n (quoted_names rl q) -> ueqb n (keep_subject_col 0) = false) -> names_free (quoted_names rl q) ->
+  forall na refs f, s_na scfg = na -> incl (quoted_names rl q) refs ->
+    get_data (r_src rl) (quoted_refs fe rules rl) = Ok (preprocess na refs f) ->
+    (forall ls, rule_triples cfg fe rules get_data rl = Ok ls ->
+       forall x, In x ls <-> exists r, In r (preprocess na refs f) /\ spec_quoted_line scfg rl q (srow_of r) = Some x) /\
+    ((forall r, In r (preprocess na refs f) -> spec_quoted_line scfg rl q (srow_of r) <> None) ->
+       exists ls, rule_triples cfg fe rules get_data rl = Ok ls).
+Proof. exact quoted_rule_is_spec. Qed.
+Print Assumptions quoted_rule_statements_partial.
+
+(* asserted rules contribute their statements, non-asserted rules contribute none of their own *)
+Theorem only_asserted_rules_contribute : forall cfg fe rules get_data l, materialize_rules cfg fe rules get_data = Ok l ->
+  forall x, In x l <-> exists rl ls, In rl rules /\ r_asserted rl = true /\ rule_triples cfg fe rules get_data rl = Ok ls /\ In x ls.
+Proof. exact asserted_exactly. Qed.
+Print Assumptions only_asserted_rules_contribute.
+(* and a rule is asserted iff its triples map is not declared non-asserted (and has a predicate-object map) *)
+Theorem rules_inherit_assertedness : forall d t rs r, base_rules_of d t = Ok rs -> In r rs ->
+  r_asserted r = negb (t_nonasserted t) && negb (match t_poms t with [] => true | _ => false end) /\ r_tm r = t_id t.
+Proof. exact base_rules_asserted. Qed.
+Print Assumptions rules_inherit_assertedness.
+
+(* non-vacuity: a concrete annotation rule over a quoted map, evaluated *)
+Definition qx (id : string) sk sv pk pv ok ov ott : rule :=
+  {| r_id := u id; r_tm := u id; r_src := u "S"; r_asserted := true; r_sk := sk; r_sv := u sv; r_stt := match sk with KQuoted => TStar | _ => TIri end;
+     r_pk := pk; r_pv := u pv; r_ok := ok; r_ov := u ov; r_ott := ott; r_ld := LDNone; r_ldk := KNone; r_ldv := [];
+     r_gk := KNone; r_gv := []; r_sjoin := []; r_ojoin := [] |}.
+Definition q_inner := qx "1" KTempl "http://e/{id}" KConst "http://e/p" KRef "v" TLit.
+Definition q_outer := qx "2" KQuoted "1" KConst "http://e/certainty" KRef "c" TLit.
+Definition q_cfg : ecfg := {| c_nquads := false; c_printable := true; c_safe := []; c_na := [] |}.
+Definition q_scfg : scfg := {| s_nquads := false; s_printable := true; s_safe := []; s_na := [] |}.
+Definition q_row : row := [(u "id", u "7"); (u "v", u "x y"); (u "c", u "0.9")].
+Example quoted_example :
+  (rdo fs <- pipe (quoted_stages q_cfg {| fn_params := fun _ => None; fn_apply := fun _ _ => FRaise; fn_table := [] |} q_outer q_inner) [q_row]; extract_triples fs)
+  = Ok [u "<< <http://e/7> <http://e/p> ""x y"" >> <http://e/certainty> ""0.9"""] /\
+  spec_quoted_line q_scfg q_outer q_inner (srow_of q_row) = Some (u "<< <http://e/7> <http://e/p> ""x y"" >> <http://e/certainty> ""0.9""").
+Proof. vm_compute. split; reflexivity. Qed.
+Print Assumptions quoted_example.
